@@ -153,7 +153,7 @@ def gen(r, tier, i):
         'f_split': r.choice(FLOAT_GRID),
         'q_split': r.choice(FLOAT_GRID[:-3] + [3.0, 7.5]),
         'd_sd': {'k%d' % j: j for j in range(nkeys)},
-        'bino': r.choice([0, 1, 5, 100, 10 ** 6]),
+        'bino': r.choice([0, 1, 5, 100, 10 ** 6, 7.5, 1301.25]),
         'z': r.randint(1, 99),
         # a second variable with the zero divider and an unusual (legal) mother value
         'z2': r.choice([5, 0.5, 'inf', '-inf', [1, 2], 'abc', {'k': 1}, None, True]),
